@@ -304,6 +304,22 @@ def load_known():
     return json.load(open(p)).get("findings", [])
 
 
+_PANIC_CACHE = {}
+_FEATS = [""]
+
+
+def panic_message(req):
+    """the panic message of the implementation on one request (the harness keeps panics off stderr
+    unless asked): used to tell one recorded panic site from any other panic"""
+    if req not in _PANIC_CACHE:
+        env = env_offline()
+        env["RLH_PANIC_MSG"] = "1"
+        r = subprocess.run([harness_bin(_FEATS[0]), "exec"], input=req + "\n", stdout=subprocess.PIPE,
+                           stderr=subprocess.PIPE, text=True, env=env)
+        _PANIC_CACHE[req] = " ".join(r.stderr.split())
+    return _PANIC_CACHE[req]
+
+
 def match_known(known, pid, case):
     name, req, impl, model, spec = case
     for k in known:
@@ -316,6 +332,8 @@ def match_known(known, pid, case):
         if k.get("impl_regex") and not re.search(k["impl_regex"], impl):
             continue
         if k.get("spec_regex") and not re.search(k["spec_regex"], spec):
+            continue
+        if k.get("panic_regex") and not re.search(k["panic_regex"], panic_message(req)):
             continue
         return k
     return None
@@ -341,6 +359,7 @@ def do_replay(pid, path):
     d = json.load(open(path))
     cfg = PROPS[pid]
     feats = cfg.get("features", "")
+    _FEATS[0] = feats
     build_harness(feats)
     build_lean([])
     if "request" not in d or not d["request"]:
@@ -383,6 +402,7 @@ def main():
 
     cfg = PROPS[pid]
     feats = cfg.get("features", "")
+    _FEATS[0] = feats
     t0 = time.time()
     os.makedirs(WORK, exist_ok=True)
     os.makedirs(EVID, exist_ok=True)
